@@ -542,6 +542,8 @@ class Interp:
                                     return True
             return False
         ctor = self.prog.constructor_helpers()
+        ocls = self.prog.classes.get(obj[1]) if isinstance(obj, tuple) and len(obj) > 1 else None
+        own = {c.qual for c in self.prog.mro(ocls) if isinstance(c, ClassInfo)} if ocls is not None else set()
         for fn in self.prog.funcs.values():
             if fn.name == "__init__" or (fn.cls is not None and fn.parent is None and fn.name in ctor):
                 continue
@@ -550,6 +552,10 @@ class Interp:
                 for t in tgts:
                     for tt in (t.elts if isinstance(t, (ast.Tuple, ast.List)) else [t]):
                         if isinstance(tt, ast.Attribute) and tt.attr == field and rooted(tt.value, fn):
+                            return True
+                        # a method of the object's own class that stores the field through `self` (decode() filling the PDU it is called on)
+                        if isinstance(tt, ast.Attribute) and tt.attr == field and isinstance(tt.value, ast.Name) and tt.value.id == "self" \
+                                and fn.cls is not None and fn.cls.qual in own:
                             return True
                 if isinstance(n, ast.Call) and isinstance(n.func, ast.Name) and n.func.id == "setattr" and n.args and rooted(n.args[0], fn):
                     return True
